@@ -228,8 +228,23 @@ where
         }
     };
 
-    match tokio::try_join!(p_s_c, c_s_p) {
+    tokio::pin!(p_s_c, c_s_p);
+    let (first, other) = tokio::select! {
+        res = &mut p_s_c => (res, futures::future::Either::Left(c_s_p)),
+        res = &mut c_s_p => (res, futures::future::Either::Right(p_s_c)),
+    };
+    match first {
         Ok(_) => unreachable!("should not happen"),
+        Err(res @ relay::Result::Close(..)) => {
+            // One side has closed and its data and end-of-stream have been passed on. Give the peer a moment to
+            // end its side too: dropping the sockets while it is still sending resets the connection, and a reset
+            // discards what was passed on but not yet delivered.
+            let _ = tokio::time::timeout(CLOSE_GRACE, other).await;
+            res
+        }
         Err(e) => e,
     }
 }
+
+/// How long the other direction may take to end after one side has closed, before the flow is torn down anyway.
+const CLOSE_GRACE: std::time::Duration = std::time::Duration::from_secs(2);
